@@ -1,6 +1,7 @@
 (* C02 — the client sees exactly the handler's final status; success only if it succeeded. *)
 From Coq Require Import ZArith List Bool.
 From Grpchan Require model.HttpClient proofs.HttpClient corr.HttpSched proofs.HttpTrace.
+From Grpchan Require model.InprocStream proofs.StreamOrder proofs.StreamDeliver proofs.StreamFinal.
 From Grpchan Require Import model.StreamSeq proofs.StreamSeq model.StatusHttp proofs.C14 model.Framing proofs.C07 proofs.C07gen gen.Wire.
 Import ListNotations.
 Open Scope Z_scope.
@@ -57,3 +58,27 @@ Theorem C02_http_accepted_schedule_is_a_run : forall rs b0 e0 rounds,
                   Grpchan.proofs.HttpClient.Inv b0 s rd dn (HttpSched.all_res rounds).
 Proof. exact HttpTrace.accepted_http_schedule_is_a_run. Qed.
 Print Assumptions C02_http_accepted_schedule_is_a_run.
+
+(* the COMPLETE in-process stream as a concurrent object (model/InprocStream.v, every interleaving of the five
+   actors, cancellation and deadline, with ghost histories of what was put on the response channel): io.EOF
+   from the client's RecvMsg means that the returning handler has closed the response channel, that no error
+   frame was ever put on it, and that every message put on it has been delivered *)
+Theorem C02_full_stream_eof_means_complete : forall s h,
+  Grpchan.proofs.StreamDeliver.lreach true s h ->
+  In (Grpchan.model.InprocStream.CR, Grpchan.model.InprocStream.CRecv, Grpchan.model.InprocStream.REOF)
+     (Grpchan.proofs.StreamDeliver.lg h) ->
+  Grpchan.model.InprocStream.respClosed s = true /\ Grpchan.model.InprocStream.respQ s = [] /\
+  existsb Grpchan.proofs.StreamFinal.is_err (Grpchan.proofs.StreamDeliver.hp h) = false /\
+  Grpchan.proofs.StreamOrder.datas (Grpchan.proofs.StreamDeliver.hp h) =
+  Grpchan.proofs.StreamDeliver.client_msgs (Grpchan.proofs.StreamDeliver.lg h).
+Proof. exact Grpchan.proofs.StreamFinal.eof_means_complete. Qed.
+Print Assumptions C02_full_stream_eof_means_complete.
+
+(* non-vacuity: a run with two messages and a trailer read to io.EOF *)
+Theorem C02_full_stream_eof_run : exists s h,
+  Grpchan.proofs.StreamDeliver.lreach true s h /\
+  In (Grpchan.model.InprocStream.CR, Grpchan.model.InprocStream.CRecv, Grpchan.model.InprocStream.REOF)
+     (Grpchan.proofs.StreamDeliver.lg h) /\
+  Grpchan.proofs.StreamOrder.datas (Grpchan.proofs.StreamDeliver.hp h) = [9; 10]%Z /\
+  Grpchan.proofs.StreamDeliver.client_msgs (Grpchan.proofs.StreamDeliver.lg h) = [9; 10]%Z.
+Proof. exact Grpchan.proofs.StreamFinal.eof_run. Qed.
